@@ -280,7 +280,7 @@ theorem data_link {β : Type} (obs : DecProg.Out → β) (hobs : EofBlind obs) (
     (h : match decodeData header s with
       | .ok (s', ev) => ∀ st', CD chk s' st' → Tables s' st' → Follows o s' st' done (pend ++ ev.toList) →
           obs (runExact (k st') s'.rest) = R
-      | .err e => R = obs (DecProg.fail st (errD e))
+      | .err e => errC (errD e) = e → R = obs (DecProg.fail st (errD e))
       | .panic => True
       | .hang => True) :
     obs (runExact (DecProg.data chk header st k) s.rest) = R := by
@@ -303,7 +303,7 @@ theorem data_link {β : Type} (obs : DecProg.Out → β) (hobs : EofBlind obs) (
   | none =>
     rw [hl] at h
     simp only [Option.map_none] at h ⊢
-    rw [h]; rfl
+    rw [h rfl]; rfl
   | some d =>
     rw [hl] at h
     simp only [Option.map_some, defD] at h ⊢
@@ -399,7 +399,7 @@ theorem data_link {β : Type} (obs : DecProg.Out → β) (hobs : EofBlind obs) (
         exact ⟨this.chk, this.cur, this.crc, this.small, this.bytes⟩
       apply devs_link obs hobs chk d d.devs [] s3 _ [] _ R hcd3 hdok.2
       cases hdv : decodeDevFields d d.devs [] s3 with
-      | err e => rw [hdv] at h; simp only at h ⊢; rw [h]; simp only [DecProg.fail, hs1.evs]
+      | err e => rw [hdv] at h; simp only at h ⊢; intro he; rw [h he]; simp only [DecProg.fail, hs1.evs]
       | panic => trivial
       | hang => trivial
       | ok p2 =>
